@@ -37,38 +37,7 @@ func (e *Engine) doCall(st *State, fr *frame, in ssa.CallInstruction, depth int)
 	}
 
 	if cc.IsInvoke() {
-		recv := e.val(st, fr, cc.Value)
-		name := cc.Method.Name()
-		if rd, ok := recv.(*ReaderVal); ok {
-			if outs, ok := e.readerMethod(st, rd, name, args, rt, in); ok {
-				return outs
-			}
-		}
-		// method on a value whose concrete pointer type is known: dispatch statically
-		// (prism methods are inlined, library methods go through their models)
-		if p, ok := recv.(*Ptr); ok && p.Cell != nil && len(p.Path) == 0 {
-			if fn := e.lookupMethod(types.NewPointer(p.Cell.Type), cc.Method); fn != nil {
-				return e.staticCall(st, fn, append([]Val{recv}, args...), nil, rt, in, depth)
-			}
-		}
-		if o, ok := recv.(*Opaque); ok && o.Dyn != nil {
-			if fn := e.lookupMethod(o.Dyn, cc.Method); fn != nil {
-				return e.staticCall(st, fn, append([]Val{recv}, args...), nil, rt, in, depth)
-			}
-		}
-		iname := "invoke:" + name
-		if e.SeqCalls != nil && e.SeqCalls(name) {
-			n := 0
-			for _, ev := range st.events {
-				if ev.Fn == name {
-					n++
-				}
-			}
-			iname = fmt.Sprintf("invoke:%s@%d", name, n)
-		}
-		res := e.appOfType(iname, rt, append([]Val{recv}, args...)...)
-		st.addEvent(Event{Kind: "invoke", Fn: name, Recv: recv, Args: args, Res: res, Pos: in.Pos()})
-		return []Outcome{valueOutcome(st, res)}
+		return e.invoke(st, e.val(st, fr, cc.Value), cc.Method, args, rt, in, depth)
 	}
 
 	switch callee := cc.Value.(type) {
@@ -94,6 +63,43 @@ func (e *Engine) doCall(st *State, fr *frame, in ssa.CallInstruction, depth int)
 	return e.stuck(st, "call of "+valKey(fv), in.Pos())
 }
 
+// invoke is a method call on an interface value.
+func (e *Engine) invoke(st *State, recv Val, method *types.Func, args []Val, rt types.Type, in ssa.CallInstruction, depth int) []Outcome {
+	{
+		name := method.Name()
+		if rd, ok := recv.(*ReaderVal); ok {
+			if outs, ok := e.readerMethod(st, rd, name, args, rt, in); ok {
+				return outs
+			}
+		}
+		// method on a value whose concrete pointer type is known: dispatch statically
+		// (prism methods are inlined, library methods go through their models)
+		if p, ok := recv.(*Ptr); ok && p.Cell != nil && len(p.Path) == 0 {
+			if fn := e.lookupMethod(types.NewPointer(p.Cell.Type), method); fn != nil {
+				return e.staticCall(st, fn, append([]Val{recv}, args...), nil, rt, in, depth)
+			}
+		}
+		if o, ok := recv.(*Opaque); ok && o.Dyn != nil {
+			if fn := e.lookupMethod(o.Dyn, method); fn != nil {
+				return e.staticCall(st, fn, append([]Val{recv}, args...), nil, rt, in, depth)
+			}
+		}
+		iname := "invoke:" + name
+		if e.SeqCalls != nil && e.SeqCalls(name) {
+			n := 0
+			for _, ev := range st.events {
+				if ev.Fn == name {
+					n++
+				}
+			}
+			iname = fmt.Sprintf("invoke:%s@%d", name, n)
+		}
+		res := e.appOfType(iname, rt, append([]Val{recv}, args...)...)
+		st.addEvent(Event{Kind: "invoke", Fn: name, Recv: recv, Args: args, Res: res, Pos: in.Pos()})
+		return []Outcome{valueOutcome(st, res)}
+	}
+}
+
 func (e *Engine) lookupMethod(t types.Type, m *types.Func) *ssa.Function {
 	sel := e.P.SSA.MethodSets.MethodSet(t).Lookup(m.Pkg(), m.Name())
 	if sel == nil {
@@ -115,6 +121,14 @@ func (e *Engine) inline(st *State, fn *ssa.Function, args, bindings []Val, depth
 func fnFullName(fn *ssa.Function) string { return fn.String() }
 
 func (e *Engine) staticCall(st *State, fn *ssa.Function, args, bindings []Val, rt types.Type, in ssa.CallInstruction, depth int) []Outcome {
+	// a method value of an interface (x.M bound to x) is the invoke x.M(args)
+	if strings.HasPrefix(fn.Synthetic, "bound method wrapper") && len(bindings) == 1 {
+		if m, ok := fn.Object().(*types.Func); ok && m != nil {
+			if sig, ok := m.Type().(*types.Signature); ok && sig.Recv() != nil && types.IsInterface(sig.Recv().Type()) {
+				return e.invoke(st, bindings[0], m, args, rt, in, depth)
+			}
+		}
+	}
 	name := fnFullName(fn)
 	if outs, ok := e.model(st, name, fn, args, rt, in); ok {
 		return outs
@@ -370,6 +384,24 @@ func (e *Engine) model(st *State, name string, fn *ssa.Function, args []Val, rt 
 			outs = append([]Outcome{valueOutcome(st, Tuple{res, &ErrVal{IsNil: true}})}, outs...)
 		}
 		return outs, true
+	case "(image.Rectangle).Dx", "(image.Rectangle).Dy":
+		// Dx = Max.X − Min.X, Dy = Max.Y − Min.Y (image package definition)
+		if rc, ok := args[0].(*Agg); ok && len(rc.Elems) == 2 {
+			mn, ok1 := rc.Elems[0].(*Agg)
+			mx, ok2 := rc.Elems[1].(*Agg)
+			if ok1 && ok2 && len(mn.Elems) == 2 && len(mx.Elems) == 2 {
+				k := 0
+				if strings.HasSuffix(name, "Dy") {
+					k = 1
+				}
+				a, okA := mx.Elems[k].(*Form)
+				b, okB := mn.Elems[k].(*Form)
+				if okA && okB {
+					return one(a.Sub(b))
+				}
+			}
+		}
+		return nil, false
 	case "(*image.RGBA).Bounds", "(*image.NRGBA).Bounds", "(*image.RGBA64).Bounds", "(*image.NRGBA64).Bounds", "(*image.YCbCr).Bounds", "(*image.Gray).Bounds":
 		// Bounds() returns the Rect field (image package definition)
 		if v, ok := e.imageField(st, args[0], "Rect", fn.Signature.Recv().Type()); ok {
